@@ -107,6 +107,12 @@ def handle (st : St) (args : List String) (impl : String) : St × Verdict :=
         | none => (st, cmpSpec "err" impl)
       else (st, .unknown)
     | _, _ => (st, .unknown)
+  -- `PMMR::rewind(position)` on the backend: truncate to the rounded-up leaf boundary
+  | ["prewind", p] => match nat? p with
+    | some p =>
+      let sz := rewindView p
+      ({ st with hashes := st.hashes.take sz }, cmpSpec (toString (min sz st.hashes.length)) impl)
+    | none => (st, .unknown)
   | ["rewind", p] => match nat? p with
     | some p => (st, cmpSpec (toString (rewindView p)) impl)
     | none => (st, .unknown)
